@@ -112,7 +112,9 @@ func main() {
 				return
 			}
 			fmt.Fprintf(w, "ok %d\n", v)
-		case f[0] == "wenc" && len(f) == 6:
+		case (f[0] == "wenc" && len(f) == 6) || (f[0] == "wenc2" && len(f) == 7):
+			// wenc2 <id> <coder> <szx> <num> <more> <previous value>: the message already carries the option (a re-used request,
+			// the next block of a transfer) when the value is set - the second SetOptionUint32 must replace the first value entirely
 			// wenc <23|27> <udp|tcp|raw> <szx> <num> <more>: EncodeBlockOption -> SetOptionUint32 -> (coder) -> GetOptionUint32 -> DecodeBlockOption
 			id, e0 := strconv.ParseUint(f[1], 10, 16)
 			s, e1 := strconv.ParseUint(f[3], 10, 8)
@@ -129,6 +131,14 @@ func main() {
 				return
 			}
 			src := pool.NewMessage(context.Background())
+			if f[0] == "wenc2" {
+				prev, ep := strconv.ParseUint(f[6], 10, 32)
+				if ep != nil {
+					fmt.Fprintln(w, "bad-op")
+					return
+				}
+				src.SetOptionUint32(message.OptionID(id), uint32(prev))
+			}
 			src.SetOptionUint32(message.OptionID(id), v)
 			raw, _ := src.GetOptionBytes(message.OptionID(id))
 			onWire := lp.Hex(raw)
